@@ -515,6 +515,8 @@ impl Simulation {
                 Ok(Some(t)) if t == target_time => return Ok(()),
                 // No actions are scheduled before or at the target time.
                 Ok(None) => {
+                    #[cfg(nexosim_verif)]
+                    crate::verif::point(45, 0, 0);
                     // Update the simulation time.
                     self.time.write(target_time);
                     if let SyncStatus::OutOfSync(lag) = self.clock.synchronize(target_time) {
